@@ -4,7 +4,7 @@ from hypothesis import strategies as st
 from vlib import env, core, gen, asserts, printer, gread, geom, kf  # noqa: F401
 
 ID = "C02"
-BUDGET = {"quick": 2000, "thorough": 20000}
+BUDGET = {"quick": 1600, "thorough": 16000}
 PROFILE = gen.profile(retract="wild", rebase=True, reg_events=False, exact=False, arc_r=True, arc_rel=True,
                       e_rel_ok=True, g10pl=True, visits=False, scripts=True, at_w=3, offon=3)
 RULE = ("The path is generated first (moves, I/J and R arcs incl. under G91, matched/unmatched/combined E-only and G10/G11 "
@@ -72,6 +72,18 @@ def cases(draw):
     regions = []
     if mode == "disabled":
         regions = cands
+        # ... and regions right on the path: with exclusion off the print goes through them untouched
+        pr = printer.Printer(bool(cfg.get("g90e")))
+        visited = []
+        for item in rnd.prog:
+            if item[0] == "g":
+                pr.execute(item[1])
+                if pr.x is not None and (abs(pr.x) > 6 or abs(pr.y) > 6):
+                    visited.append((pr.x, pr.y))
+        for k in range(draw(st.integers(0, 3)) if visited else 0):
+            vx, vy = visited[draw(st.integers(0, len(visited) - 1))]
+            regions.append({"type": "rect", "x1": vx - 2.25, "y1": vy - 1.75, "x2": vx + 2.25, "y2": vy + 1.75, "id": "p%d" % k} if draw(st.booleans())
+                           else {"type": "circ", "cx": vx + 0.1, "cy": vy - 0.2, "r": 2.2, "id": "p%d" % k})
     elif mode == "clear":
         # points and arc boxes visited by the unfiltered run
         pr = printer.Printer(bool(cfg.get("g90e")))
